@@ -225,5 +225,6 @@ def mm_from_lines(lines):
                            kv['ordered'] == '1', kv['unique'] == '1', kv['cont'] == '1',
                            ('cls', int(t[1])) if t[0] == 'cls' else ('dt', t[1]),
                            None if kv['opp'] == '-' else int(kv['opp']))
+            f.volatile = kv.get('volatile') == '1'
             mm.feats.append(f)
     return mm
